@@ -1,5 +1,5 @@
 //! unit: u06b
-//! properties: C06 C07
+//! properties: C06 C07 C01
 //! note: revocation keys: the private key a justice transaction is signed with (chan_utils::derive_private_revocation_key) is the private key of the revocation public key the revoked outputs' scripts name (RevocationKey::from_basepoint), both being BOLT 3's revocationpubkey formula; sign_justice_revoked_output signs, with that key, the sighash of the given input under the to_local script built from our revocation basepoint, the delay we imposed and the counterparty's delayed-payment basepoint
 //! trusted: htlc_output_value: HTLCOutputInCommitment::to_bitcoin_amount and the two weight functions are extracted whole; RevokedHTLCOutput::build: the weight and amount expressions of the struct literal (R15 slice with captures); PackageSolvingData::finalize_input: the amount arguments of the two sign_counterparty_htlc_transaction calls (captures); Amount/ChannelTypeFeatures/HTLCOutputInCommitment skeletons
 //! trusted: env: secp256k1 is uninterpreted: secret keys, public keys and scalars carry abstract ids; pt(k) is the public key of k, smul / sadd and pmul / padd the tweak operations on secret and public keys, ser the 33-byte serialization, scalar_of the scalar read from 32 bytes, key_bytes the bytes of a secret key; Sha256's engine is a stub that records the concatenation of its inputs in a ghost field, Sha256::from_engine(..).to_byte_array() is the uninterpreted sha256_spec of those; `.expect(msg)` on the tweak results is vstd's Result::expect
